@@ -37,22 +37,26 @@ def b64encode (bs : Bytes) : String := String.ofList (b64EncodeChars (bs.map (·
 
 def b64DecodeChars : List Char → Option (List Nat)
   | [] => some []
-  | [c0, c1, '=', '='] => do
-    let v0 ← b64Val c0
-    let v1 ← b64Val c1
-    pure [v0 * 4 + v1 / 16]
-  | [c0, c1, c2, '='] => do
-    let v0 ← b64Val c0
-    let v1 ← b64Val c1
-    let v2 ← b64Val c2
-    pure [v0 * 4 + v1 / 16, (v1 % 16) * 16 + v2 / 4]
-  | c0 :: c1 :: c2 :: c3 :: rest => do
-    let v0 ← b64Val c0
-    let v1 ← b64Val c1
-    let v2 ← b64Val c2
-    let v3 ← b64Val c3
-    let r ← b64DecodeChars rest
-    pure ((v0 * 4 + v1 / 16) :: ((v1 % 16) * 16 + v2 / 4) :: ((v2 % 4) * 64 + v3) :: r)
+  | c0 :: c1 :: c2 :: c3 :: rest =>
+    if c3 = '=' then
+      -- padding is only legal in the last quantum
+      if rest ≠ [] then none
+      else if c2 = '=' then do
+        let v0 ← b64Val c0
+        let v1 ← b64Val c1
+        pure [v0 * 4 + v1 / 16]
+      else do
+        let v0 ← b64Val c0
+        let v1 ← b64Val c1
+        let v2 ← b64Val c2
+        pure [v0 * 4 + v1 / 16, (v1 % 16) * 16 + v2 / 4]
+    else do
+      let v0 ← b64Val c0
+      let v1 ← b64Val c1
+      let v2 ← b64Val c2
+      let v3 ← b64Val c3
+      let r ← b64DecodeChars rest
+      pure ((v0 * 4 + v1 / 16) :: ((v1 % 16) * 16 + v2 / 4) :: ((v2 % 4) * 64 + v3) :: r)
   | _ => none
 
 /-- `base64.StdEncoding.DecodeString`: `none` = error. -/
